@@ -99,6 +99,10 @@ class ModelTrainer:
     ):
         """Initialise the class with configs and set the seed and device as class attributes."""
         self.config = verify_training_cfg(config)
+        # The wandb API key must never be persisted: keep it in memory only and blank
+        # it in the config before any config file or checkpoint is written.
+        self._wandb_api_key = self.config.trainer_config.wandb.api_key
+        self.config.trainer_config.wandb.api_key = ""
         self.data_pipeline_fw = self.config.data_config.data_pipeline_fw
         self.use_existing_chunks = self.config.data_config.use_existing_chunks
         self.user_instances_only = OmegaConf.select(
@@ -722,7 +726,7 @@ class ModelTrainer:
         )
 
     def _set_wandb(self):
-        wandb.login(key=self.config.trainer_config.wandb.api_key)
+        wandb.login(key=self._wandb_api_key)
 
     def _initialize_model(
         self,
